@@ -1,8 +1,10 @@
 pub mod c01;
 pub mod c02;
 pub mod c03;
+pub mod c05;
 pub mod c06;
 pub mod c07;
+pub mod c08;
 pub mod c09;
 pub mod c15;
 pub mod c16;
@@ -15,8 +17,10 @@ pub fn dispatch(ctx: &Ctx) -> Option<(Report, Meta)> {
         "C01" => c01::run(ctx),
         "C02" => c02::run(ctx),
         "C03" => c03::run(ctx),
+        "C05" => c05::run(ctx),
         "C06" => c06::run(ctx),
         "C07" => c07::run(ctx),
+        "C08" => c08::run(ctx),
         "C09" => c09::run(ctx),
         "C15" => c15::run(ctx),
         "C16" => c16::run(ctx),
